@@ -451,4 +451,249 @@ theorem openDB_isSome (fs : FS) (o : OpCkpt) (cks : List CkDoc) (ck : CkDoc)
     | none => rw [hs] at h2; simp at h2
     | some ls => rfl
 
+/-! ### non-atomic creation: the environment acts between the storage calls -/
+
+/-- the environment never writes or deletes a file in `H` -/
+def Avoids (H : URI → Prop) (sch : Sched) : Prop := ∀ e ∈ sch, ∀ w ∈ e, ¬ H w.uri
+
+/-- two storages hold the same savepoint directories and the same files of `H` -/
+def Agree (H : URI → Prop) (a b : FS) : Prop :=
+  (∀ p, p.isWork = false → read a p = read b p) ∧ (∀ u, H u → read a (.work u) = read b (.work u))
+
+theorem Agree.trans {H : URI → Prop} {a b c : FS} (h1 : Agree H a b) (h2 : Agree H b c) : Agree H a c :=
+  ⟨fun p hp => (h1.1 p hp).trans (h2.1 p hp), fun u hu => (h1.2 u hu).trans (h2.2 u hu)⟩
+
+theorem applyWork_agree (H : URI → Prop) : ∀ (e : List WorkOp) (a : FS), (∀ w ∈ e, ¬ H w.uri) →
+    Agree H (applyWork a e) a := by
+  intro e
+  induction e with
+  | nil => intro a _; exact ⟨fun _ _ => rfl, fun _ _ => rfl⟩
+  | cons w r ih =>
+    intro a he
+    have hw := he w (List.mem_cons_self ..)
+    have hr := fun x hx => he x (List.mem_cons_of_mem _ hx)
+    refine ⟨fun p hp => applyWork_frame p hp _ a, ?_⟩
+    intro u hu
+    have hne : Path.work w.uri ≠ Path.work u := by
+      intro hh; injection hh with hh; exact hw (hh ▸ hu)
+    cases w with
+    | put v c =>
+      simp only [applyWork]
+      rw [(ih _ hr).2 u hu]; exact read_write_ne _ _ hne
+    | del v =>
+      simp only [applyWork]
+      rw [(ih _ hr).2 u hu]; exact read_remove_ne _ hne
+
+theorem step_agree (H : URI → Prop) (sch : Sched) (h : Avoids H sch) (a : FS) :
+    Agree H (Sched.step a sch).1 a ∧ Avoids H (Sched.step a sch).2 := by
+  cases sch with
+  | nil => exact ⟨⟨fun _ _ => rfl, fun _ _ => rfl⟩, h⟩
+  | cons e r =>
+    exact ⟨applyWork_agree H e a (h e (List.mem_cons_self ..)), fun e' he' => h e' (List.mem_cons_of_mem _ he')⟩
+
+theorem write_agree (H : URI → Prop) (p : Path) (c : Content) {a b : FS} (h : Agree H a b) :
+    Agree H (write p c a) (write p c b) := by
+  constructor
+  · intro q hq
+    by_cases hpq : p = q
+    · subst hpq; rw [read_write_eq, read_write_eq]
+    · rw [read_write_ne _ _ hpq, read_write_ne _ _ hpq]; exact h.1 q hq
+  · intro u hu
+    by_cases hpq : p = .work u
+    · subst hpq; rw [read_write_eq, read_write_eq]
+    · rw [read_write_ne _ _ hpq, read_write_ne _ _ hpq]; exact h.2 u hu
+
+/-- copying files that the environment leaves alone gives the same result as copying them atomically -/
+theorem copyAllS_sim (H : URI → Prop) (dst : URI → Path) : ∀ (us : List URI) (a b : FS) (sch : Sched),
+    Avoids H sch → (∀ u ∈ us, H u) → Agree H a b →
+    (copyAllS .work dst a sch us).2.1 = (copyAll .work dst b us).2 ∧
+    Agree H (copyAllS .work dst a sch us).1 (copyAll .work dst b us).1 ∧
+    Avoids H (copyAllS .work dst a sch us).2.2 := by
+  intro us
+  induction us with
+  | nil => intro a b sch hs _ hab; exact ⟨rfl, hab, hs⟩
+  | cons u r ih =>
+    intro a b sch hs hus hab
+    obtain ⟨hst, hs'⟩ := step_agree H sch hs a
+    have hab' : Agree H (Sched.step a sch).1 b := hst.trans hab
+    have hread : read (Sched.step a sch).1 (.work u) = read b (.work u) := hab'.2 u (hus u (List.mem_cons_self ..))
+    simp only [copyAllS, copyAll]
+    rw [hread]
+    cases hb : read b (.work u) with
+    | none => exact ⟨rfl, hab', hs'⟩
+    | some c =>
+      simp only []
+      exact ih _ _ _ hs' (fun v hv => hus v (List.mem_cons_of_mem _ hv)) (write_agree H _ c hab')
+
+/-- the per-operator loop as the code has it (document copied last), environment avoiding `H`, against the atomic loop -/
+theorem createOpsS_sim (L : Lister) (H : URI → Prop) (sid : Nat) : ∀ (ops : List OpCkpt) (a b : FS) (sch : Sched),
+    Avoids H sch → (∀ o ∈ ops, H o.uri) →
+    (∀ o ∈ ops, ∀ files, opFiles L b (.work o.uri) o = some files → ∀ u ∈ files, H u) → Agree H a b →
+    (createOpsS L .copyFile sid a sch ops).2.1 = (createOps L sid b ops).2 ∧
+    Agree H (createOpsS L .copyFile sid a sch ops).1 (createOps L sid b ops).1 ∧
+    Avoids H (createOpsS L .copyFile sid a sch ops).2.2 := by
+  intro ops
+  induction ops with
+  | nil => intro a b sch hs _ _ hab; exact ⟨rfl, hab, hs⟩
+  | cons o r ih =>
+    intro a b sch hs hdoc hfiles hab
+    obtain ⟨hst, hs'⟩ := step_agree H sch hs a
+    have hab' : Agree H (Sched.step a sch).1 b := hst.trans hab
+    have hread : read (Sched.step a sch).1 (.work o.uri) = read b (.work o.uri) :=
+      hab'.2 _ (hdoc o (List.mem_cons_self ..))
+    simp only [createOpsS, createOps, copyOps]
+    rw [hread]
+    cases hb : read b (.work o.uri) with
+    | none => simp only [opFiles, hb]; exact ⟨by trivial, hab', hs'⟩
+    | some c =>
+      cases c with
+      | doc cks =>
+        cases hl : listFiles L cks o.ckptId with
+        | none => simp only [opFiles, hb, hl, Option.map_none]; exact ⟨by trivial, hab', hs'⟩
+        | some files =>
+          have hof : opFiles L b (.work o.uri) o = some (files ++ [o.uri]) := by simp [opFiles, hb, hl]
+          simp only [hof, hl]
+          have hH := hfiles o (List.mem_cons_self ..) _ hof
+          obtain ⟨h1, h2, h3⟩ := copyAllS_sim H (artPath sid) (files ++ [o.uri]) _ b _ hs' hH hab'
+          cases hc : copyAll .work (artPath sid) b (files ++ [o.uri]) with
+          | mk b1 ok =>
+            rw [hc] at h1 h2
+            cases hcs : copyAllS .work (artPath sid) (Sched.step a sch).1 (Sched.step a sch).2 (files ++ [o.uri]) with
+            | mk a1 rest =>
+              obtain ⟨ok', sch1⟩ := rest
+              rw [hcs] at h1 h2 h3
+              simp only at h1 h2 h3
+              subst h1
+              cases ok' with
+              | false => exact ⟨rfl, h2, h3⟩
+              | true =>
+                simp only []
+                have hfr : ∀ v, read b1 (.work v) = read b (.work v) := by
+                  intro v
+                  have := copyAll_frame .work (artPath sid) (.work v) (fun x => sp_ne_work sid x v) (files ++ [o.uri]) b
+                  rw [hc] at this; exact this
+                apply ih a1 b1 sch1 h3 (fun o' ho' => hdoc o' (List.mem_cons_of_mem _ ho')) ?_ h2
+                intro o' ho' fl hfl
+                apply hfiles o' (List.mem_cons_of_mem _ ho') fl
+                rw [← hfl]; exact opFiles_congr _ _ _ _ _ _ (hfr _).symm
+      | job s => simp only [opFiles, hb]; exact ⟨by trivial, hab', hs'⟩
+      | blob t => simp only [opFiles, hb]; exact ⟨by trivial, hab', hs'⟩
+      | junk => simp only [opFiles, hb]; exact ⟨by trivial, hab', hs'⟩
+
+
+/-- the atomic copy of `files ++ [doc]` ends with the document's own content when nothing else changed -/
+theorem copyAll_append_doc (sid : Nat) (b : FS) (files : List URI) (d : URI) (c : Content)
+    (hd : read b (.work d) = some c) :
+    copyAll .work (artPath sid) b (files ++ [d]) =
+      match copyAll .work (artPath sid) b files with
+      | (b1, false) => (b1, false)
+      | (b1, true) => (write (artPath sid d) c b1, true) := by
+  induction files generalizing b with
+  | nil => simp [copyAll, hd]
+  | cons u r ih =>
+    simp only [List.cons_append, copyAll]
+    cases hu : read b (.work u) with
+    | none => rfl
+    | some cu =>
+      simp only []
+      apply ih
+      rw [read_write_ne _ _ (sp_ne_work sid u d)]; exact hd
+
+/-- the per-operator loop with the D53 repair (the document content read at the start is written), environment
+avoiding `H`, against the atomic loop -/
+theorem createOpsS_sim_writeRead (L : Lister) (H : URI → Prop) (sid : Nat) : ∀ (ops : List OpCkpt) (a b : FS) (sch : Sched),
+    Avoids H sch → (∀ o ∈ ops, H o.uri) →
+    (∀ o ∈ ops, ∀ files, opFiles L b (.work o.uri) o = some files → ∀ u ∈ files, H u) → Agree H a b →
+    (createOpsS L .writeRead sid a sch ops).2.1 = (createOps L sid b ops).2 ∧
+    Agree H (createOpsS L .writeRead sid a sch ops).1 (createOps L sid b ops).1 ∧
+    Avoids H (createOpsS L .writeRead sid a sch ops).2.2 := by
+  intro ops
+  induction ops with
+  | nil => intro a b sch hs _ _ hab; exact ⟨rfl, hab, hs⟩
+  | cons o r ih =>
+    intro a b sch hs hdoc hfiles hab
+    obtain ⟨hst, hs'⟩ := step_agree H sch hs a
+    have hab' : Agree H (Sched.step a sch).1 b := hst.trans hab
+    have hread : read (Sched.step a sch).1 (.work o.uri) = read b (.work o.uri) :=
+      hab'.2 _ (hdoc o (List.mem_cons_self ..))
+    simp only [createOpsS, createOps, copyOps]
+    rw [hread]
+    cases hb : read b (.work o.uri) with
+    | none => simp only [opFiles, hb]; exact ⟨by trivial, hab', hs'⟩
+    | some c =>
+      cases c with
+      | doc cks =>
+        cases hl : listFiles L cks o.ckptId with
+        | none => simp only [opFiles, hb, hl, Option.map_none]; exact ⟨by trivial, hab', hs'⟩
+        | some files =>
+          have hof : opFiles L b (.work o.uri) o = some (files ++ [o.uri]) := by simp [opFiles, hb, hl]
+          simp only [hof, hl]
+          have hH := hfiles o (List.mem_cons_self ..) _ hof
+          have hHf : ∀ u ∈ files, H u := fun u hu => hH u (List.mem_append_left _ hu)
+          obtain ⟨h1, h2, h3⟩ := copyAllS_sim H (artPath sid) files _ b _ hs' hHf hab'
+          rw [copyAll_append_doc sid b files o.uri _ hb]
+          cases hc : copyAll .work (artPath sid) b files with
+          | mk b1 ok =>
+            rw [hc] at h1 h2
+            cases hcs : copyAllS .work (artPath sid) (Sched.step a sch).1 (Sched.step a sch).2 files with
+            | mk a1 rest =>
+              obtain ⟨ok', sch1⟩ := rest
+              rw [hcs] at h1 h2 h3
+              simp only at h1 h2 h3
+              subst h1
+              cases ok' with
+              | false => exact ⟨rfl, h2, h3⟩
+              | true =>
+                simp only []
+                obtain ⟨hst2, hs2⟩ := step_agree H sch1 h3 a1
+                have hab2 : Agree H (write (artPath sid o.uri) (.doc cks) (Sched.step a1 sch1).1)
+                    (write (artPath sid o.uri) (.doc cks) b1) := write_agree H _ _ (hst2.trans h2)
+                have hfr : ∀ v, read (write (artPath sid o.uri) (.doc cks) b1) (.work v) = read b (.work v) := by
+                  intro v
+                  rw [read_write_ne _ _ (sp_ne_work sid o.uri v)]
+                  have := copyAll_frame .work (artPath sid) (.work v) (fun x => sp_ne_work sid x v) files b
+                  rw [hc] at this; exact this
+                apply ih _ _ _ hs2 (fun o' ho' => hdoc o' (List.mem_cons_of_mem _ ho')) ?_ hab2
+                intro o' ho' fl hfl
+                apply hfiles o' (List.mem_cons_of_mem _ ho') fl
+                rw [← hfl]; exact opFiles_congr _ _ _ _ _ _ (hfr _).symm
+      | job s => simp only [opFiles, hb]; exact ⟨by trivial, hab', hs'⟩
+      | blob t => simp only [opFiles, hb]; exact ⟨by trivial, hab', hs'⟩
+      | junk => simp only [opFiles, hb]; exact ⟨by trivial, hab', hs'⟩
+
+/-- creation as the code has it with the environment avoiding `H` (which contains every file the creation reads)
+reports what the atomic creation reports and leaves the same savepoint directories -/
+theorem createArtifactS_sim (L : Lister) (m : DocMode) (H : URI → Prop) (fs : FS) (jobURI : URI) (snap : JobSnap) (sch : Sched)
+    (hs : Avoids H sch) (hj : H jobURI) (hdoc : ∀ o ∈ snap.ops, H o.uri)
+    (hfiles : ∀ o ∈ snap.ops, ∀ files, opFiles L fs (.work o.uri) o = some files → ∀ u ∈ files, H u) :
+    (createArtifactS L m fs jobURI snap sch).2 = (createArtifact L fs jobURI snap).2 ∧
+    ∀ p, p.isWork = false → read (createArtifactS L m fs jobURI snap sch).1 p = read (createArtifact L fs jobURI snap).1 p := by
+  have hsim : (createOpsS L m snap.id fs sch snap.ops).2.1 = (createOps L snap.id fs snap.ops).2 ∧
+      Agree H (createOpsS L m snap.id fs sch snap.ops).1 (createOps L snap.id fs snap.ops).1 ∧
+      Avoids H (createOpsS L m snap.id fs sch snap.ops).2.2 := by
+    cases m with
+    | copyFile => exact createOpsS_sim L H snap.id snap.ops fs fs sch hs hdoc hfiles ⟨fun _ _ => rfl, fun _ _ => rfl⟩
+    | writeRead => exact createOpsS_sim_writeRead L H snap.id snap.ops fs fs sch hs hdoc hfiles ⟨fun _ _ => rfl, fun _ _ => rfl⟩
+  obtain ⟨h1, h2, h3⟩ := hsim
+  unfold createArtifactS createArtifact
+  cases hc : createOps L snap.id fs snap.ops with
+  | mk b1 ok =>
+    rw [hc] at h1 h2
+    cases hcs : createOpsS L m snap.id fs sch snap.ops with
+    | mk a1 rest =>
+      obtain ⟨ok', sch1⟩ := rest
+      rw [hcs] at h1 h2 h3
+      simp only at h1 h2 h3
+      subst h1
+      cases ok' with
+      | false => exact ⟨rfl, h2.1⟩
+      | true =>
+        simp only []
+        obtain ⟨hst, _⟩ := step_agree H sch1 h3 a1
+        have hab := hst.trans h2
+        rw [hab.2 jobURI hj]
+        cases hr : read b1 (.work jobURI) with
+        | none => exact ⟨rfl, hab.1⟩
+        | some c => exact ⟨rfl, (write_agree H _ c hab).1⟩
+
 end Rxn.Savepoint
